@@ -45,7 +45,7 @@ func miscRules() []*Rule {
 	}
 }
 
-var rePhiIdx = regexp.MustCompile(`\(phi:t\d+@[A-Za-z0-9_$]+\+const:1\)`)
+var rePhiIdx = regexp.MustCompile(`\(phi:t\d+@[A-Za-z0-9_$]+\+const:1\)|phi:t\d+@[A-Za-z0-9_$]+`)
 
 var reGen = regexp.MustCompile(`~\d+`)
 
@@ -531,7 +531,7 @@ func runRowMap(c *Ctx) {
 		c.Undecided("toRow loop", fn.Pos(), "not a single loop")
 		return
 	}
-	cis, rec := "p:"+fn.Params[1].Name()+"[i]", "p:"+fn.Params[2].Name()
+	rec := "p:" + fn.Params[2].Name()
 	rowid := "p:" + fn.Params[0].Name()
 	seen := map[string]bool{}
 	for _, lp := range paths {
@@ -549,19 +549,37 @@ func runRowMap(c *Ctx) {
 			continue
 		}
 		val := gen(st[0].Val)
-		isRowid := strings.Contains(ls, cis+".rowid == true") && !strings.Contains(ls, "¬("+cis+".rowid == true)")
-		short := strings.Contains(ls, "len("+rec+")−"+cis+".rowIndex <= 0") && !strings.Contains(ls, "¬(len("+rec+")−"+cis+".rowIndex <= 0)")
+		// the element under consideration: the term carrying .rowIndex / .rowid on this path
+		elem := ""
+		for _, l := range lp.Lits {
+			for _, part := range strings.Split(l.Subject, "−") {
+				if strings.HasSuffix(part, ".rowid") {
+					elem = strings.TrimSuffix(part, ".rowid")
+				}
+			}
+		}
+		if elem == "" {
+			c.Fail("toRow:"+pathSig(lp, 99), fn.Pos(), "a row element is set without consulting the column's rowid flag; path [%s]", ls)
+			continue
+		}
+		isRowid := lp.Has(elem+".rowid", token.EQL, "true", true) || lp.Has(elem+".rowid", token.EQL, "false", false)
+		pr := newProver(p, t, lp)
+		recLen := "len(" + rec + ")"
+		short := pr.g.entailsLE(recLen, elem+".rowIndex", 0)
+		long := pr.g.entailsLE(elem+".rowIndex", recLen, -1)
+		ge := gen(elem)
 		switch {
 		case isRowid:
 			seen["rowid"] = true
 			c.Check(val == rowid, "toRow rowid", fn.Pos(), "rowid column ⇒ the rowid (stores %s)", val)
 		case short:
 			seen["default"] = true
-			c.Check(val == cis+".col.Default", "toRow default", fn.Pos(), "record shorter than the column's position ⇒ the column DEFAULT (stores %s)", val)
-		default:
+			c.Check(val == ge+".col.Default", "toRow default", fn.Pos(), "record shorter than the column's position ⇒ the column DEFAULT (stores %s)", val)
+		case long:
 			seen["value"] = true
-			okGuard := strings.Contains(ls, "¬(len("+rec+")−"+cis+".rowIndex <= 0)")
-			c.Check(val == rec+"["+cis+".rowIndex]" && okGuard, "toRow value", fn.Pos(), "otherwise ⇒ record[rowIndex], guarded by the length test (stores %s)", val)
+			c.Check(val == rec+"["+ge+".rowIndex]", "toRow value", fn.Pos(), "otherwise ⇒ record[rowIndex], guarded by the length test (stores %s)", val)
+		default:
+			c.Fail("toRow:"+pathSig(lp, 99), fn.Pos(), "a row element is set to %s without comparing the column's position with the record length; path [%s]", val, ls)
 		}
 	}
 	for _, k := range []string{"rowid", "default", "value"} {
@@ -825,42 +843,55 @@ func runDone0(c *Ctx) {
 		default:
 			continue
 		}
-		for _, r := range returnsOf(fn) {
-			key := p.FnKey(fn) + " return@" + t.Term(r.Results[0], emptyPS())
-			v := r.Results[0]
-			if b, isC := constBool(v); isC {
-				c.Check(!b, p.FnKey(fn)+" const done", r.Pos(), "a constant done result is `false` (done=true without a callback having asked for it ends the whole scan early: entries in interior pages and pages to the right are never visited)")
+		paths, ok := EnumLits(fn.Blocks[0], 0, TabOpts{Termer: t, EventOf: callEvents(p)})
+		if !ok {
+			c.Undecided(p.FnKey(fn)+" done origin", fn.Pos(), "too many paths")
+			continue
+		}
+		bad := ""
+		var badPos token.Pos
+		n := 0
+		for _, lp := range paths {
+			if lp.Exit == nil {
 				continue
 			}
-			// otherwise it must be the done result of an inner (bool, error) call
-			okSrc := false
-			var check func(x ssa.Value, depth int) bool
-			check = func(x ssa.Value, depth int) bool {
-				if depth > 4 {
-					return false
+			n++
+			v := lp.PS.Resolve(lp.Exit.Results[0])
+			if b, isC := constBool(v); isC {
+				if !b {
+					continue
 				}
-				if call, idx := extractOf(x); call != nil && idx == 0 && returnsBoolError(call.Call.Signature()) {
-					return true
-				}
-				if ph, ok := x.(*ssa.Phi); ok {
-					for _, e := range ph.Edges {
-						if b, isC := constBool(e); isC && !b {
-							continue
-						}
-						if !check(e, depth+1) {
-							return false
-						}
+				// constant true: some inner (bool, error) call on this path must have reported done
+				okTrue := false
+				for _, l := range lp.Lits {
+					e, isE := l.Cond.(*ssa.Extract)
+					if !isE || e.Index != 0 || !((l.Op == token.EQL && l.C == "true" && l.Val) || (l.Op == token.EQL && l.C == "false" && !l.Val)) {
+						continue
 					}
-					return true
+					if call, isCall := e.Tuple.(*ssa.Call); isCall && returnsBoolError(call.Call.Signature()) {
+						okTrue = true
+					}
 				}
-				return false
+				if !okTrue {
+					bad, badPos = "returns done=true on path ["+pathDesc(lp)+"] although no callback or inner level reported done", lp.Exit.Pos()
+				}
+				continue
 			}
-			okSrc = check(v, 0)
-			c.Check(okSrc, key, r.Pos(), "done comes from a callback or inner iteration level")
+			if call, idx := extractOf(v); call != nil && idx == 0 && returnsBoolError(call.Call.Signature()) {
+				continue
+			}
+			bad, badPos = "returns done="+t.Term(v, lp.PS)+", which is not the answer of a callback or inner level", lp.Exit.Pos()
+		}
+		if n == 0 {
+			continue
+		}
+		if bad == "" {
+			c.Pass(p.FnKey(fn)+" done origin", fn.Pos(), "on all %d exit paths done is false, an inner answer, or true only after an inner answer was true", n)
+		} else {
+			c.Fail(p.FnKey(fn)+" done origin", badPos, "%s: done=true without a callback having asked for it ends the whole scan early (entries in interior pages and pages to the right are never visited)", bad)
 		}
 	}
 }
-
 func autoidxRule() *Rule {
 	return &Rule{ID: "AUTOIDX", Props: []string{"C10"}, Min: 3,
 		Doc: "automatic-index numbering: on a rowid table the counter behind sqlite_autoindex_<table>_<n> advances only when the constraint actually created an index (SQLite shares an existing equivalent index and does not consume a number); WITHOUT ROWID primary keys always consume one",
